@@ -1025,13 +1025,28 @@ func (l *Lab) hangCheck(done chan error, stale map[int]bool) (error, string, boo
 		return len(l.recs), opened
 	}
 	n1, _ := look()
-	for round := 0; round < 2; round++ {
+	for round := 0; round < 3; round++ {
 		select {
 		case err := <-done:
 			return err, "", true
 		case <-time.After(HangConfirm):
 		}
 		n2, opened := look()
+		if !opened {
+			// Nothing moves although every gate the occurrence should wait for is open. If
+			// the state machine is waiting for a hook the lab still holds (at a point where
+			// the model does not expect it to wait), that is for the ordering rules to
+			// judge, not a hang: let everything go and look again.
+			l.mu.Lock()
+			if rest := l.openGates(); len(rest) > 0 {
+				l.addLocked(Record{Kind: KNote, Msg: fmt.Sprintf("driven call makes no progress: opening %d gates the current occurrence is not expected to wait for", len(rest))})
+				for _, g := range rest {
+					l.release(g)
+				}
+				opened = true
+			}
+			l.mu.Unlock()
+		}
 		gs := Goroutines()
 		found, parked, inRepo, site := driverSite(gs, stale)
 		l.mu.Lock()
